@@ -484,6 +484,21 @@ class Fn:
                 if info.get("kind") != "enum" or "disc_place" not in info:
                     continue
                 l, proj = info["disc_place"]
+                if proj == ["*"] and l not in vol:
+                    # the discriminant is read through a reference taken in this body (`x.is_ok()` presented as a match)
+                    rl = l
+                    for _ in range(4):
+                        rds = [d for d in self.defs().get(rl, []) if d[1] in ("assign", "call")]
+                        if len(rds) != 1 or rds[0][1] != "assign":
+                            break
+                        rv_ = rds[0][2]["rv"]
+                        if rv_["k"] == "ref" and not rv_["p"][1]:
+                            l, proj = rv_["p"][0], []
+                            break
+                        if rv_["k"] == "use" and op_place(rv_["op"]) is not None and not op_place(rv_["op"])[1]:
+                            rl = op_place(rv_["op"])[0]
+                            continue
+                        break
                 if proj or l in vol:
                     continue
                 # look through whole-local moves, `Try::branch(x)` (Continue <-> Ok/Some, Break <-> Err/None) and a payload read
